@@ -209,7 +209,8 @@ class _Found(Exception):
 
 
 def run_shard(args):
-    modname, tier, shard, nshards, n_cases, base_seed = args
+    modname, tier, shard, nshards, n_cases, base_seed = args[:6]
+    regress_cases = args[6] if len(args) > 6 else []
     import importlib
     import hypothesis
     from hypothesis import given
@@ -219,6 +220,9 @@ def run_shard(args):
     strat = module.strategy(tier)
     t0 = time.time()
     try:
+        for case in regress_cases:
+            run_case(module, case, ctx)
+            ctx.label("regress_cases")
         if shard == 0 and hasattr(module, "fixed_cases"):
             for case in module.fixed_cases(tier):
                 run_case(module, case, ctx)
